@@ -559,6 +559,7 @@ class Interp:
         self.opaque_self_methods = set(opaque_self_methods)
         self.copy_is_identity = copy_is_identity
         self.loop_doms = []
+        self.paths = []
         self.notes = []
 
     # ----------------------------------------------------------- entry points
@@ -674,7 +675,7 @@ class Frame:
                 cur = st.env[c.func.value.id]
                 ca = cur.as_atom() if isinstance(cur, Poly) else None
                 if (a is not None and a[0] == "mcall" and ca is not None and a[2] == cur.key()
-                        and ca[0] in ("call", "mcall", "upd") and not (ca[0] == "call" and ca[1] == "concat")):
+                        and ca[0] in ("call", "mcall", "upd", "attr", "sub", "elem", "v", "after") and not (ca[0] == "call" and ca[1] == "concat")):
                     st.env[c.func.value.id] = Poly.atom(("upd",) + a[1:])
             return [(st, ("fall",))]
         if isinstance(s, ast.Assign):
@@ -1232,7 +1233,7 @@ class Frame:
         else:
             full = self.global_name(dotted.split(".")[0]) + dotted[dotted.index("."):]
             fi = self.I.prog.functions.get(full) or self.I.prog._resolve_dotted_fn(full)
-        if fi is None and "." not in dotted and self.fi.qualname.startswith("spec:"):
+        if fi is None and "." not in dotted and self.fi.qualname.startswith("spec:") and dotted not in self.module.imports:
             # specifications may name the shared numeric helpers without importing them
             fi = self.I.prog.functions.get("phyclone.utils.math." + dotted)
         if fi is not None:
@@ -1400,7 +1401,8 @@ def _interp_run_with_env(interp, fi, args, kwargs, self_cls, carried):
         env[node.args.kwarg.arg] = ADict({("const", repr(k)): (k, v) for k, v in kwargs.items()})
     interp.stack.append(fi.qualname)
     try:
-        outs = frame.exec_block(node.body, State(env))
+        # the callee shares the caller's container objects (an append inside it is visible outside)
+        outs = frame.exec_block(node.body, State(env, clone=False))
     finally:
         interp.stack.pop()
     rets, finals = [], []
@@ -1417,7 +1419,49 @@ def _interp_run_with_env(interp, fi, args, kwargs, self_cls, carried):
             raise Unsupported("%s escapes %s" % (oc[0], fi.qualname))
     result = make_cond(_close(rets))
     merged = merge_states(finals, 0) if finals else State(env)
+    if len(interp.stack) == 0:
+        # top-level function: keep the raw paths (guard list, returned value) for path-wise rules
+        interp.paths = [(list(st.guards), oc[1] if oc[0] == "return" else (None if oc[0] == "fall" else Poly.atom(("raise", oc[1])))) for st, oc in outs]
     return result, merged
+
+
+def subst_key(k, mapping):
+    """Rebuild key `k` with every occurrence of a key in `mapping` (key -> Poly) replaced."""
+    if k in mapping:
+        return mapping[k].key() if isinstance(mapping[k], Poly) else mapping[k]
+    if _is_polykey(k):
+        return subst(poly_from_key(k), mapping).key()
+    if isinstance(k, tuple):
+        return tuple(subst_key(x, mapping) for x in k)
+    return k
+
+
+def subst(v, mapping):
+    """Substitute atoms / sub-keys inside an abstract value.  `mapping`: key -> Poly."""
+    if isinstance(v, Poly):
+        if v.key() in mapping:
+            return mapping[v.key()]
+        out = Poly.const(0)
+        for m, c in v.terms.items():
+            term = Poly.const(c)
+            for a, pw in m:
+                pk = Poly.atom(a).key()
+                if pk in mapping:
+                    base = mapping[pk]
+                elif a in mapping:
+                    base = mapping[a]
+                else:
+                    base = Poly.atom(tuple(subst_key(x, mapping) if isinstance(x, tuple) else x for x in a))
+                term = term * (base ** Poly.const(pw))
+            out = out + term
+        return out
+    if isinstance(v, ATuple):
+        return ATuple([subst(x, mapping) for x in v.items])
+    if isinstance(v, AList):
+        return AList([subst(x, mapping) for x in v.items], v.doms)
+    if isinstance(v, tuple):
+        return subst_key(v, mapping)
+    return v
 
 
 def _absent_to_zero(v):
